@@ -18,6 +18,7 @@ import (
 type Reply struct {
 	Status  string // ok | panic | err
 	Cov     string
+	CovExt  string // counters of the instrumented standard packages (math/big), hashed separately; "0" = none ran
 	Results [][]byte
 	Raw     string
 }
@@ -153,6 +154,9 @@ func parse(s string) (Reply, error) {
 			return r, fmt.Errorf("%w: malformed reply %q", ErrHarness, s)
 		}
 		r.Cov = f[1]
+		if lib, ext, ok := strings.Cut(f[1], "/"); ok && !strings.HasPrefix(f[1], "coverr") {
+			r.Cov, r.CovExt = lib, ext
+		}
 		for _, h := range f[2:] {
 			if h == "-" {
 				r.Results = append(r.Results, nil)
